@@ -120,7 +120,16 @@ def run_shards(modname, specs, jobs, tmp):
     return [outs[i] for i in sorted(outs)]
 
 
+def _safe_stdio():
+    for st in (sys.stdout, sys.stderr):
+        try:
+            st.reconfigure(errors="backslashreplace")  # witnesses may contain lone surrogates
+        except Exception:
+            pass
+
+
 def main(argv=None):
+    _safe_stdio()
     ap = argparse.ArgumentParser()
     ap.add_argument("prop")
     ap.add_argument("--tier", default=os.environ.get("VERIF_TIER") or "quick", choices=["quick", "thorough"])
